@@ -25,10 +25,14 @@ pub struct CbState {
     pub cancel_at: Option<usize>,
     /// call ctx.cancel() (instead of returning false) at this invocation
     pub flag_at: Option<(usize, Arc<Context>)>,
+    /// callbacks are neither logged nor acted on (fault-free preparation / follow-up parts)
+    pub muted: bool,
 }
 
 thread_local! {
     pub static CB: RefCell<CbState> = RefCell::new(CbState::default());
+    /// global event sequence numbers of this thread's callback invocations (cross-thread cancel)
+    pub static CB_SEQS: RefCell<Vec<u64>> = const { RefCell::new(Vec::new()) };
 }
 
 pub fn cb_reset(world: Option<WorldRef>, cancel_at: Option<usize>) {
@@ -38,7 +42,9 @@ pub fn cb_reset(world: Option<WorldRef>, cancel_at: Option<usize>) {
         c.log.clear();
         c.cancel_at = cancel_at;
         c.flag_at = None;
+        c.muted = false;
     });
+    CB_SEQS.with(|s| s.borrow_mut().clear());
 }
 
 pub fn cb_take_log() -> Vec<(String, u32, u32)> {
@@ -47,6 +53,17 @@ pub fn cb_take_log() -> Vec<(String, u32, u32)> {
 
 pub fn progress_cb(phase: ProgressPhase, step: u32, total: u32) -> bool {
     let name = format!("{phase:?}");
+    if CB.with(|c| c.borrow().muted) {
+        return true;
+    }
+    crate::turnstile::yield_point("progress");
+    let seq = crate::props::c23::EVENT_SEQ.fetch_add(1, std::sync::atomic::Ordering::SeqCst);
+    CB_SEQS.with(|s| {
+        let mut s = s.borrow_mut();
+        if s.len() < 100_000 {
+            s.push(seq)
+        }
+    });
     let (cont, flag) = CB.with(|c| {
         let mut c = c.borrow_mut();
         if let Some(w) = &c.world {
@@ -63,8 +80,11 @@ pub fn progress_cb(phase: ProgressPhase, step: u32, total: u32) -> bool {
     if let Some(ctx) = flag {
         ctx.cancel();
     }
-    crate::turnstile::yield_point("progress");
     cont
+}
+
+pub fn mute(on: bool) {
+    CB.with(|c| c.borrow_mut().muted = on);
 }
 
 /// Context with base settings + overlay and the recording progress callback.
@@ -137,6 +157,8 @@ pub struct Scenario {
     pub sidecar: Vec<u8>,
     /// builder archive
     pub archive: Vec<u8>,
+    /// stop after the operation proper (no fault-free follow-up sign/read-back)
+    pub no_followup: bool,
 }
 
 #[derive(Clone, Debug, PartialEq)]
@@ -201,6 +223,7 @@ pub fn prepare(
         signed: vec![],
         sidecar: vec![],
         archive: vec![],
+        no_followup: false,
     };
     match op {
         Op::Read | Op::AddIngredient | Op::JumbfLoad | Op::ToArchive | Op::WithArchive => {
@@ -293,6 +316,9 @@ pub fn exec(sc: &Scenario, env: &ExecEnv) -> Outcome {
                 Err(e) => Outcome::Err(err_kind(&e)),
                 Ok(c2pa_data) => {
                     let out = dst.into_data();
+                    if sc.no_followup {
+                        return Outcome::Bytes(out);
+                    }
                     if sc.op == Op::SignSidecar {
                         let rd = Reader::from_shared_context(env.verify_ctx)
                             .with_manifest_data_and_stream(
@@ -351,14 +377,17 @@ pub fn exec(sc: &Scenario, env: &ExecEnv) -> Outcome {
             if let Err(e) = r {
                 return Outcome::Err(err_kind(&e));
             }
+            if sc.no_followup {
+                return Outcome::Unit;
+            }
             // sign the parent fault-free and report what was recorded
             let mut psrc = std::io::Cursor::new(sc.asset.clone());
             let mut pdst = std::io::Cursor::new(Vec::new());
             let s = sdk::make_signer(&sc.alg);
             // detach the callback for the fault-free part
-            let saved = CB.with(|c| c.borrow_mut().cancel_at.take());
+            mute(true);
             let r = b.sign(s.as_ref(), mime, &mut psrc, &mut pdst);
-            CB.with(|c| c.borrow_mut().cancel_at = saved);
+            mute(false);
             match r {
                 Ok(_) => read_back(env.verify_ctx, mime, &pdst.into_inner()),
                 Err(e) => Outcome::Err(format!("parent-sign:{}", err_kind(&e))),
@@ -370,17 +399,23 @@ pub fn exec(sc: &Scenario, env: &ExecEnv) -> Outcome {
                 Err(e) => return Outcome::Err(err_kind(&e)),
             };
             let mut ing = std::io::Cursor::new(sc.signed.clone());
-            if let Err(e) = b.add_ingredient_from_stream(
-                json!({"title": "ing", "relationship": "componentOf"}).to_string(),
-                mime,
-                &mut ing,
-            ) {
+            mute(true);
+            let pr = b
+                .add_ingredient_from_stream(
+                    json!({"title": "ing", "relationship": "componentOf"}).to_string(),
+                    mime,
+                    &mut ing,
+                )
+                .map(|_| ());
+            mute(false);
+            if let Err(e) = pr {
                 return Outcome::Err(format!("prep:{}", err_kind(&e)));
             }
             // only the archive write is on the simulated stream: restart op counting here
             let mut dst = SimStream::new(w, 0, Vec::new());
             match b.to_archive(&mut dst) {
                 Err(e) => Outcome::Err(err_kind(&e)),
+                Ok(()) if sc.no_followup => Outcome::Bytes(dst.into_data()),
                 Ok(()) => restore_and_sign(sc, env, dst.into_data()),
             }
         }
@@ -388,6 +423,7 @@ pub fn exec(sc: &Scenario, env: &ExecEnv) -> Outcome {
             let src = SimStream::new(w, 0, sc.archive.clone());
             match Builder::from_shared_context(env.ctx).with_archive(src) {
                 Err(e) => Outcome::Err(err_kind(&e)),
+                Ok(_) if sc.no_followup => Outcome::Unit,
                 Ok(mut b) => sign_builder(sc, env, &mut b),
             }
         }
@@ -413,9 +449,9 @@ fn sign_builder(sc: &Scenario, env: &ExecEnv, b: &mut Builder) -> Outcome {
     let mut psrc = std::io::Cursor::new(sc.asset.clone());
     let mut pdst = std::io::Cursor::new(Vec::new());
     let s = sdk::make_signer(&sc.alg);
-    let saved = CB.with(|c| c.borrow_mut().cancel_at.take());
+    mute(true);
     let r = b.sign(s.as_ref(), sc.fmt.mime(), &mut psrc, &mut pdst);
-    CB.with(|c| c.borrow_mut().cancel_at = saved);
+    mute(false);
     match r {
         Ok(_) => read_back(env.verify_ctx, sc.fmt.mime(), &pdst.into_inner()),
         Err(e) => Outcome::Err(format!("restored-sign:{}", err_kind(&e))),
